@@ -69,10 +69,10 @@ Definition is_gray (c : rgba) : bool := let '(r, g, b, _) := c in ((r =? g) && (
 
 Definition set_fill (fixed : bool) (p : paint) (w : pdfw) : list ptok * pdfw :=
   if paint_eqb p (wfill w) then
-    (if fixed then match p with PColor _ => set_alpha (paint_alpha p) w | _ => ([], w) end else ([], w))
+    (if fixed then match p with PColor _ => set_alpha (paint_alpha p) w | PGrad _ => set_alpha 1 w | PNone => ([], w) end else ([], w))
   else match p with
        | PNone => ([], w)   (* never called: HasFill *)
-       | PGrad id => ([Tscn id], with_fill p w)
+       | PGrad id => if fixed then let '(t2, w2) := set_alpha 1 w in (Tscn id :: t2, with_fill p w2) else ([Tscn id], with_fill p w)
        | PColor c =>
            let '(r, g, b) := paint_col p in
            let t1 := if is_gray c then [Tg r] else [Trg r g b] in
@@ -82,10 +82,10 @@ Definition set_fill (fixed : bool) (p : paint) (w : pdfw) : list ptok * pdfw :=
 
 Definition set_stroke (fixed : bool) (p : paint) (w : pdfw) : list ptok * pdfw :=
   if paint_eqb p (wstroke w) then
-    (if fixed then match p with PColor _ => set_alpha (paint_alpha p) w | _ => ([], w) end else ([], w))
+    (if fixed then match p with PColor _ => set_alpha (paint_alpha p) w | PGrad _ => set_alpha 1 w | PNone => ([], w) end else ([], w))
   else match p with
        | PNone => ([], w)
-       | PGrad id => ([TSCN id], with_stroke p w)
+       | PGrad id => if fixed then let '(t2, w2) := set_alpha 1 w in (TSCN id :: t2, with_stroke p w2) else ([TSCN id], with_stroke p w)
        | PColor c =>
            let '(r, g, b) := paint_col p in
            let t1 := if is_gray c then [TG r] else [TRG r g b] in
